@@ -134,3 +134,77 @@ Definition flag_defaults_consistent (flags : list (string * (string * (string * 
                  else true
              | _, _ => true
              end) spec_flags.
+
+(* ---- SetDefaults as a function on a whole configuration ---------------------------------------------- *)
+(* a configuration = its fields by name; booleans are *bool in Go (None = nil) *)
+Inductive cval := CB (b : option bool) | CN (z : Z) | CS (s : string).
+
+Definition apply_rule (r : default_rule) (store : string) (v : cval) : cval :=
+  match v with
+  | CB b => CB (apply_bool r b)
+  | CN z => CN (apply_num r z)
+  | CS s => CS (apply_str r store s)
+  end.
+
+Definition set_defaults (rules : list (string * default_rule)) (store : string) (cfg : list (string * cval)) : list (string * cval) :=
+  map (fun fv => match lookup (fst fv) rules with
+                 | Some r => (fst fv, apply_rule r store (snd fv))
+                 | None => fv
+                 end) cfg.
+
+(* a field counts as explicitly set when its value is not the "unset" value of its rule *)
+Definition is_set (r : default_rule) (v : cval) : bool :=
+  match r, v with
+  | DBool _, CB (Some _) => true
+  | DWhenZero _, CN z => negb (z =? 0)%Z
+  | DWhenNonPositive _, CN z => (0 <? z)%Z
+  | (DStr _ | DStrWhen _ _), CS s => negb (String.eqb s "")
+  | _, _ => false
+  end.
+
+Lemma apply_rule_set r store v : is_set r v = true -> apply_rule r store v = v.
+Proof.
+  destruct r as [d|d|d|d|st d]; destruct v as [[b|]|z|s]; simpl; try discriminate; intros H; auto.
+  - destruct (Z.eqb_spec z 0); [discriminate|reflexivity].
+  - destruct (Z.leb_spec z 0); [apply Z.ltb_lt in H; lia|reflexivity].
+  - destruct (String.eqb s ""); [discriminate|reflexivity].
+  - destruct (String.eqb s ""); [discriminate|]. rewrite andb_false_r. reflexivity.
+Qed.
+
+(* explicitly set values are never overridden by defaulting, whatever the other fields hold *)
+Theorem set_defaults_keeps_set rules store cfg f v r :
+  In (f, v) cfg -> lookup f rules = Some r -> is_set r v = true -> In (f, v) (set_defaults rules store cfg).
+Proof.
+  intros Hin Hl Hs. unfold set_defaults. apply in_map_iff. exists (f, v). split; auto.
+  simpl. rewrite Hl. rewrite apply_rule_set; auto.
+Qed.
+
+(* fields without a rule are left alone; the set of fields is unchanged *)
+Theorem set_defaults_fields rules store cfg : map fst (set_defaults rules store cfg) = map fst cfg.
+Proof.
+  unfold set_defaults. rewrite map_map. apply map_ext. intros [f v]. simpl. destruct (lookup f rules); reflexivity.
+Qed.
+
+Theorem set_defaults_no_rule rules store cfg f v :
+  In (f, v) cfg -> lookup f rules = None -> In (f, v) (set_defaults rules store cfg).
+Proof.
+  intros Hin Hl. unfold set_defaults. apply in_map_iff. exists (f, v). simpl. rewrite Hl. auto.
+Qed.
+
+(* defaulting twice changes nothing more *)
+Lemma apply_rule_idem r store v : apply_rule r store (apply_rule r store v) = apply_rule r store v.
+Proof.
+  destruct r as [d|d|d|d|st d]; destruct v as [[b|]|z|s]; simpl; auto.
+  - destruct (Z.eqb_spec z 0); simpl; auto. destruct (Z.eqb_spec d 0); auto. destruct (Z.eqb_spec z 0); auto; contradiction.
+  - destruct (Z.leb_spec z 0); simpl; auto. destruct (Z.leb_spec d 0); auto. destruct (Z.leb_spec z 0); auto; lia.
+  - destruct (String.eqb s "") eqn:E; simpl; auto; [|rewrite E; auto]. destruct (String.eqb d "") eqn:E2; auto.
+  - destruct (String.eqb store st && String.eqb s "") eqn:E; simpl; auto; [|rewrite E; auto].
+    destruct (String.eqb store st && String.eqb d "") eqn:E2; auto.
+Qed.
+
+Theorem set_defaults_idem rules store cfg :
+  set_defaults rules store (set_defaults rules store cfg) = set_defaults rules store cfg.
+Proof.
+  unfold set_defaults. rewrite map_map. apply map_ext. intros [f v]. simpl.
+  destruct (lookup f rules) eqn:E; simpl; rewrite E; [rewrite apply_rule_idem|]; reflexivity.
+Qed.
